@@ -19,8 +19,10 @@
   missing_without_fallback_raises
   marker_free_same_results
   inline_real_eq_runtime_partial
+  guard_leaves_only_cyclic
 -/
 import Genshi.Lemmas.InclErase
+import Genshi.Lemmas.InclGuard
 import Genshi.Gen.Incl
 namespace Genshi.Props.C11
 open Genshi.Incl
@@ -127,6 +129,30 @@ theorem result_unique (files : Files) (entry : Name) (kind : Kind) (data : List 
   rcases Nat.le_total f g with hfg | hfg
   · exact ((more_fuel_same_result files entry kind data hfg).1 r h hr).symm.trans h'
   · exact (((more_fuel_same_result files entry kind data hfg).1 r' h' hr').symm.trans h).symm
+
+/-- what the recursion guard leaves behind: after inline preparation, every statically named
+include still present in the prepared stream — at any depth, also inside inlined templates, macro
+and match template bodies and fallbacks — names a file that does not exist (error deferred to run
+time) or a file on a cycle of the static include graph.  These are exactly the run-time includes
+both modes share; their termination is decided by the data.  In particular an acyclic file set
+whose targets all exist is inlined completely.  No hypothesis on the file set. -/
+theorem guard_leaves_only_cyclic (files : Files) (name : Name) (cls : Kind) (c : Cache)
+    (b' : List Node) (c' : Cache) (hc : CacheGood files c) (h : loadInl files name cls c = .ok (b', c')) :
+    (∀ t ∈ targetsL b', files.find t = none ∨ Cyc files t) ∧ CacheGood files c' := by
+  simp only [loadInl] at h
+  cases hfind : files.find name with
+  | none => simp [hfind] at h
+  | some f =>
+    simp only [hfind] at h
+    by_cases hk : f.kind = cls
+    · simp only [hk, ne_eq, not_true_eq_false, if_false] at h
+      cases hb : f.body with
+      | none => simp [hb] at h
+      | some body =>
+        simp only [hb] at h
+        exact prepT_good files (prepFuel files) [name] name c b' c'
+          (fun g hg => by simp at hg; subst hg; exact .refl _) hc h
+    · simp [hk] at h
 
 /-! ## the cost markers are only an accounting device -/
 
@@ -321,6 +347,8 @@ example : inH (matchTags exFiles) exFiles = true := by decide +kernel
 -- both modes, same events; the recursion through sub/c.html → ../a.html is decided by the data
 example : renderInline exFiles nA .markup exData 9 = renderRuntime exFiles nA .markup exData 9 := by decide +kernel
 example : (match renderRuntime exFiles nA .markup exData 9 with | .ok evs => evs.length | _ => 0) = 20 := by decide +kernel
+-- the guard leaves one statically named include in the prepared entry: the cyclic ../a.html
+example : (loadInl exFiles nA .markup []).map (fun r => targetsL r.1) = .ok [nA] := by decide +kernel
 -- not enough fuel for the two nested template entries: both modes give up
 example : renderInline exFiles nA .markup exData 2 = .fuel ∧ renderRuntime exFiles nA .markup exData 2 = .fuel := by decide +kernel
 -- the code's inline mode (no markers) spends no fuel on inlined templates: it gets by with less
